@@ -1,6 +1,7 @@
 import OrbitModel.Proofs.Address
 import OrbitModel.Proofs.OpenCreate
 import OrbitModel.Proofs.OpenCreateOpen
+import OrbitModel.Proofs.Params
 /-!
 # C14 — the address of a database is a function of (name, type, access controller) and round-trips
 
@@ -155,5 +156,24 @@ theorem created_address_is_named {isCid : String → Bool} {h name : String} {a 
     (hc : isCid h = true) (hh : Path.Seg h) (hd : Path.determine isCid h name = some a)
     (m : OC.Manifest) (hm : m.name = name) : OC.named isCid a m = true :=
   OC.named_of_determine hc hh hd m hm
+
+/-- "with none given, the creator's own id is the default" - for EVERY sequence of calls a caller makes with
+ONE access controller parameters value (whoever the creators are): each database's write list is its own
+creator's id and its recorded name its own, because every call works on a copy of the caller's value
+(`Params.useCopy`; findings F54, F59, fix: commits; `reuseac` step of the address family, where the driver
+computes the expected write list with this model) -/
+theorem default_writer_is_the_creator_whatever_the_value_was_used_for (calls : List (String × String)) :
+    Params.run Params.useCopy {} calls =
+      calls.map (fun c => { name := c.2, type := "ipfs", write := [c.1] }) :=
+  Params.run_copy_defaults calls
+
+/-- the tree as it was (the call worked on the caller's value): the second database made from one value got
+the first creator's id as its write list, and the first database's name -/
+theorem shared_parameters_leaked_the_first_creator_before_the_fix :
+    Params.run Params.useShared {} [("A", "one"), ("B", "two")] =
+      [{ name := "one", type := "ipfs", write := ["A"] }, { name := "one", type := "ipfs", write := ["A"] }] ∧
+    Params.run Params.useCopy {} [("A", "one"), ("B", "two")] =
+      [{ name := "one", type := "ipfs", write := ["A"] }, { name := "two", type := "ipfs", write := ["B"] }] :=
+  Params.shared_value_leaks
 
 end Orbit.C14
